@@ -64,9 +64,9 @@ def verifyIsProcfs (fd : Fd) : M Unit := do
   if t ≠ PROC_SUPER_MAGIC then throw (.os EXDEV)
 
 /-- kernel resolver of `ProcfsResolver` -/
-def openat2Resolve (env : Env) (root : Fd) (path : Bytes) (oflags rflags : Nat) : M Fd := do
+def openat2Resolve (env : Env) (root : Fd) (path : Bytes) (oflags rflags : Nat) : M Fd :=
   if !env.openat2 then throw .notSupported
-  Sys.openat2 root path oflags
+  else Sys.openat2 root path oflags
     (RESOLVE_BENEATH ||| RESOLVE_NO_MAGICLINKS ||| RESOLVE_NO_XDEV ||| rflags)
 
 /-- what the emulated resolver does with the last component when the flags
@@ -132,32 +132,43 @@ def opathResolve (root : Fd) (path : Bytes) (oflags rflags : Nat) : M Fd := do
 
 /-- `ProcfsResolver::resolve` -/
 def resolve (env : Env) (emulated : Bool) (root : Fd) (path : Bytes) (oflags rflags : Nat) :
-    M Fd := do
+    M Fd :=
   if hasAny oflags (O_CREAT ||| O_EXCL) || hasAll oflags O_TMPFILE then throw .invalidArgument
-  if emulated then opathResolve root path oflags rflags
+  else if emulated then opathResolve root path oflags rflags
   else openat2Resolve env root path oflags rflags
 
 def verifySameProcfsMnt (h : ProcH) (fd : Fd) : M Unit := do
   verifySameMnt h.mntId fd []
   verifyIsProcfs fd
 
+/-- `inner.metadata().expect("fstat(/proc) should work")` -/
+def fstatOrPanic (inner : Fd) : M Sys.Stat := do
+  match ← M.try' (Sys.fstatat inner []) with
+  | .ok st => pure st
+  | .error _ => throw (.panic "fstat(/proc) should work")
+
+/-- `accessat(inner, name, F_OK, AT_SYMLINK_NOFOLLOW).is_err()` -/
+def missing (inner : Fd) (name : Bytes) : M Bool := do
+  match ← M.call (.accessat inner name F_OK AT_SYMLINK_NOFOLLOW) with
+  | .unit => pure false
+  | .err _ => pure true
+  | _ => throw (.badResp "accessat")
+
+/-- is `stat` (subset=pid) or `1` (hidepid) invisible? -/
+def probeSubset (inner : Fd) : M Bool := do
+  let m1 ← missing inner b!"stat"
+  if m1 then pure true else missing inner b!"1"
+
 /-- `ProcfsHandle::try_from_fd` -/
 def tryFromFd (env : Env) (inner : Fd) : M ProcH := do
   (verifyIsProcfs inner).onErr (Sys.close inner)
-  let st ← match ← M.try' (Sys.fstatat inner []) with
-    | .ok st => pure st
-    | .error _ => throw (.panic "fstat(/proc) should work")
+  let st ← fstatOrPanic inner
   if st.ino ≠ PROC_ROOT_INO then
     (Sys.close inner : Prog Unit)
     throw .safetyViolation
+  else
   let mntId ← (fetchMntId inner []).onErr (Sys.close inner)
-  let missing (name : Bytes) : M Bool := do
-    match ← M.call (.accessat inner name F_OK AT_SYMLINK_NOFOLLOW) with
-    | .unit => pure false
-    | .err _ => pure true
-    | _ => throw (.badResp "accessat")
-  let isSubset ← do
-    if ← missing b!"stat" then pure true else missing b!"1"
+  let isSubset ← probeSubset inner
   pure { fd := inner, mntId, isSubset, emulated := !env.openat2 }
 
 /-- `ProcfsHandle::new_fsopen` -/
@@ -203,8 +214,9 @@ def openBase (env : Env) (h : ProcH) (base : Base) : M Fd := do
   pure fd
 
 /-- `ProcfsHandle::open`.  The `ENOENT` retry on a fresh unmasked handle calls
-`open` again on that handle; the code has no bound on this recursion, so the
-model takes fuel (see finding F3). -/
+`open` again on that handle.  Since the repair of finding F3 the retry happens
+only on a handle that is not itself masked, so the recursion has depth one; the
+model keeps the fuel parameter and `Props/C08.lean` proves it is never exhausted. -/
 def openH (env : Env) : Nat → ProcH → Base → Bytes → Nat → M Fd
   | 0, _, _, _, _ => throw (.outOfFuel "ProcfsHandle::open ENOENT retry")
   | fuel + 1, h, base, subpath, oflags => do
@@ -225,9 +237,14 @@ def openH (env : Env) : Nat → ProcH → Base → Bytes → Nat → M Fd
           (Sys.close basedir : Prog Unit)
           throw e
         | .ok h2 =>
-          let r ← M.try' (openH env fuel h2 base subpath oflags)
-          (Sys.closeAll [h2.fd, basedir] : Prog Unit)
-          M.ofExcept r
+          if h2.isSubset then
+            -- still masked: it cannot tell more than this handle did
+            (Sys.closeAll [h2.fd, basedir] : Prog Unit)
+            throw e
+          else
+            let r ← M.try' (openH env fuel h2 base subpath oflags)
+            (Sys.closeAll [h2.fd, basedir] : Prog Unit)
+            M.ofExcept r
       else
         (Sys.close basedir : Prog Unit)
         throw e
@@ -245,7 +262,8 @@ def readlinkH (env : Env) (h : ProcH) (base : Base) (subpath : Bytes) : M Bytes 
 def openFollowH (env : Env) (h : ProcH) (base : Base) (subpath : Bytes) (oflags : Nat) : M Fd := do
   let (subpath, trailingSlash) := Path.stripTrailingSlash subpath
   let oflags := if trailingSlash then oflags ||| O_DIRECTORY else oflags
-  if !(← M.isOk (readlinkH env h base subpath)) then
+  let isLink ← M.isOk (readlinkH env h base subpath)
+  if !isLink then
     openH env retryFuel h base subpath oflags
   else
     let (parent, trailing) ← (Path.pathSplit subpath : Except Err _)
@@ -265,9 +283,11 @@ def asUnsafePath (env : Env) (fd : Fd) : M Bytes := do
   readlinkH env env.proc .threadSelf sub
 
 /-- `FdExt::reopen` (through the global handle) -/
-def reopen (env : Env) (fd : Fd) (flags : Nat) : M Fd := do
+def reopen (env : Env) (fd : Fd) (flags : Nat) : M Fd :=
+  if hasAny flags (O_CREAT ||| O_EXCL) || hasAll flags O_TMPFILE then throw .invalidArgument
+  else do
   let st ← Sys.fstatat fd []
-  if st.isSymlink then throw (.os ELOOP)
+  if st.isSymlink then throw (.os ELOOP) else
   let flags := clearBits flags O_NOFOLLOW
   let sub ← (Sys.procSubpath fd : Except Err _)
   openFollowH env env.proc .threadSelf sub flags
